@@ -146,11 +146,13 @@ def shared_slots(sys_):
 
 class Op:
     def __init__(self, name, arity, enabled, run, inplace=False, target=None, mode='preserve', base=None,
-                 may_raise=False, consume=False, hands_back=None):
+                 may_raise=False, consume=False, hands_back=None, always=False, oracle=None):
         self.name = name; self.arity = arity; self.enabled = enabled; self.run = run
         self.inplace = inplace; self.target = target; self.mode = mode
         self.may_raise = may_raise      # numerically conditioned routine: an exception disables the transition
         self.consume = consume          # overwrite=True variants that hand self's buffers to the results: self leaves the pool
+        self.always = always            # exempt from the fresh-operand reduction (probes for hidden module-level state)
+        self.oracle = oracle            # optional: dense value (dense_cores layout) the first result must have, by definition
         self.hands_back = hands_back    # index of the argument that is documented to come back by identity as result 0 (the initial state heading a trajectory)
         self.base = base or name.split('(')[0]
 
@@ -282,6 +284,12 @@ def apply_transition(model, sys_, tr, check=True):
                 if any(t is u for u in results[:k_]):
                     fails = [('identity:%s:same-object-returned-twice' % op.base, '%s returned the same object in two positions' % op.name)]
                     break
+        if not fails and op.oracle is not None and results and meta_problem(results[0]) is None:
+            # I8: a constructor returns its defining value, whatever happened to earlier results of the same constructor
+            want = op.oracle(sys_, *objs)
+            got = dense_cores(results[0].cores)
+            if got.shape != want.shape or np.linalg.norm((got - want).ravel()) > 1e-12 * max(1.0, float(np.linalg.norm(want.ravel()))):
+                fails = [('I8:constructor-value:%s' % op.base, '%s does not return its defining tensor at this point of the history' % op.name)]
         if not fails and not op.inplace and getattr(model, 'recompute', True):
             fails = recompute_check(model, sys_, op, objs, res)
     if not fails and tgt is not None and not op.consume and meta_problem(sys_.objs[tgt]) is None and not small(sys_.objs[tgt]):
@@ -369,7 +377,7 @@ def _expand(args):
             for i in range(len(sys_.objs)):
                 if i not in fresh and any(a is b or np.may_share_memory(a, b) for j in fresh for a in sys_.objs[i].cores for b in sys_.objs[j].cores):
                     fresh.add(i); grow = True
-        trs = [tr for tr in trs if any(s_ in fresh for s_ in tr[1])]
+        trs = [tr for tr in trs if model.ops[tr[0]].always or any(s_ in fresh for s_ in tr[1])]
     trs = trs[part[0]::part[1]]          # the transitions of one state may be spread over several tasks (load balance)
     dirty = False
     for tr in trs:
